@@ -348,9 +348,19 @@ func walk(md protoreflect.MessageDescriptor, m *model.Msg, set map[string]bool, 
 	}
 }
 
+var lastClasses struct {
+	m   *model.Msg
+	set map[string]bool
+	n   int
+}
+
 func (c tcase) classes() (map[string]bool, int) {
+	if lastClasses.m == c.M && c.M != nil {
+		return lastClasses.set, lastClasses.n
+	}
 	set := map[string]bool{}
 	n := 0
+	defer func() { lastClasses.m, lastClasses.set, lastClasses.n = c.M, set, n }()
 	walk(mcase.Desc(c.Type), c.M, set, &n, false)
 	if c.Dynamic {
 		set["dynamicpb"] = true
@@ -393,6 +403,6 @@ func TestRoundTrip(t *testing.T) {
 		Draw: drawCase, Check: checkCase,
 		NonTrivial: func(c tcase) bool { s, n := c.classes(); return nonTrivial(s, n) },
 		Classes:    func(c tcase) []string { s, _ := c.classes(); return classList(s) },
-		Quick:      30000, Thorough: 200000,
+		Quick:      30000, Thorough: 100000,
 	})
 }
